@@ -104,6 +104,8 @@ static int split (char *line, char **tok)
 #ifdef XC_SO
 #include "ops_so.h"
 static int op_prim_dispatch (int n, char **tok) { return op_so_dispatch (n, tok); }
+#elif defined XC_NO_PRIM
+static int op_prim_dispatch (int n, char **tok) { (void)n; (void)tok; return 0; }
 #else
 #include "ops_prim.h"
 #endif
@@ -123,6 +125,7 @@ int main (int argc, char **argv)
       else if (!strcmp (tok[0], "K")) op_checksalt (n, tok);
       else if (!strcmp (tok[0], "KE")) op_checksalt_enum (n, tok);
       else if (!strcmp (tok[0], "P")) op_preferred (n, tok);
+      else if (!strcmp (tok[0], "CFG")) printf ("ok\n");
       else if (!strcmp (tok[0], "OS")) { int isn; size_t l; unsigned char *p = unhex (tok[1], &l, &isn);
           os_real = isn; os_len = l > sizeof os_bytes ? sizeof os_bytes : l; os_pos = 0;
           if (p) { memcpy (os_bytes, p, os_len); free (p); } printf ("ok\n"); }
